@@ -654,7 +654,13 @@ class TermEngine:
             self.calls.append(cs)
             self.calls_by_bb[b] = cs
             # mutable references passed to the callee: the referent is modified
-            for a in args:
+            if nm == "swap" and (callee.def_ or "").endswith("mem::swap") and len(args) == 2 and \
+                    all(isinstance(a, tuple) and a[0] == "mutref" for a in args) and args[0][1] != args[1][1]:
+                # std::mem::swap(&mut x, &mut y) on two locals: exchange their values
+                l1, l2 = args[0][1], args[1][1]
+                st[l1], st[l2] = st.get(l2, ("local", l2)), st.get(l1, ("local", l1))
+            else:
+              for a in args:
                 if isinstance(a, tuple) and a[0] == "mutref":
                     old = st.get(a[1], ("local", a[1]))
                     st[a[1]] = ("mut", site, callee, old)
